@@ -110,6 +110,22 @@ struct Structure {
     make: fn(seq: &[u8], variant: u64, r: &mut Rng) -> Prog,
 }
 
+/// The same operation with every caller-supplied *value* replaced by zero (options, enumerated
+/// choices and handles untouched).
+fn zeroed(op: &Op) -> Op {
+    match op {
+        Op::MemAff { opts, .. } => Op::MemAff { pd: 0, base: 0, len: 0, opts: opts.clone() },
+        Op::RintcAff { uid, opts, pd, .. } => Op::RintcAff { uid: *uid, clock: 0, pd: pd.map(|_| 0), opts: opts.clone() },
+        Op::Cache { calls } => Op::Cache { calls: calls.iter().map(|(c, v)| if matches!(c, 1 | 2 | 3 | 7 | 8) { (*c, 0) } else { (*c, *v) }).collect() },
+        Op::Tcpa { call, gas, .. } => Op::Tcpa { call: *call, a: 0, b: 0, gas: gas.as_ref().map(|g| GasArg { addr: 0, ..g.clone() }) },
+        Op::GicMsi { calls } => Op::GicMsi { calls: calls.iter().map(|(c, _)| (*c, 0)).collect() },
+        Op::Gicc { st, sets } => Op::Gicc { st: *st, sets: sets.iter().map(|(s, v)| (*s, v & (1 << 32))).collect() },
+        Op::Iommu { id, base, pci, pd, wires } => Op::Iommu { id: *id, base: base.map(|_| 0), pci: pci.map(|_| (0, 0, 0, 0)), pd: pd.map(|_| 0), wires: wires.clone() },
+        Op::Sllbi { loc, data, mts, ni, nt, flags, .. } => Op::Sllbi { loc: *loc, data: *data, mts: *mts, base_unit: 0, ni: *ni, nt: *nt, inits: vec![], targs: vec![], cells: vec![], flags: flags.clone() },
+        o => o.clone(),
+    }
+}
+
 fn prog(kind: Kind, ctor: Ctor, ops: Vec<Op>) -> Prog {
     Prog { kind, hdr: hdr(), ctor, ops }
 }
@@ -365,6 +381,12 @@ pub fn run(cfg: &Cfg) -> Report {
             for seq in orderings(&set, &mut r) {
                 let p = (s.make)(&seq, variant, &mut r);
                 if !judge_prog(cx, name, &p) {
+                    return;
+                }
+                // the same calls with every supplied value equal to zero: a "values supplied" flag must
+                // not depend on what the values are
+                let pz = Prog { ops: p.ops.iter().map(zeroed).collect(), ..p.clone() };
+                if !judge_prog(cx, name, &pz) {
                     return;
                 }
                 cx.rep.distinct(&(si, seq.clone(), variant));
